@@ -44,16 +44,122 @@ pub const FSST_KINDS: &[&str] = &[
     "tokens",        // short records cut at token boundaries and mid-token, optional trailing 0x00 / 0xFF
     "tokens511",     // long records whose lengths sit around multiples of 511 (compress_bulk chunking)
     "tokens_edge",   // total size around FSST_LEAST_INPUT_SIZE
+    // "every token is a symbol": <= 32 tokens of exactly 8 (sometimes 4..7) bytes, every byte value in exactly one
+    // token, two frequency tiers, one least-frequent token whose rarest byte sits at a chosen position (incl. the
+    // last); most records end 1..7 bytes before the end of their last token
+    "symtok",
 ];
 
-/// kind of FSST case `idx`: every third case is one of the structured token corpora
+/// kind of FSST case `idx`: 1/4 "symtok", 1/4 the Zipf token corpora, 1/2 the 14 classic kinds
 pub fn fsst_kind_for(idx: u64) -> &'static str {
-    let n = FSST_KINDS.len() as u64;
-    if idx % 3 == 0 {
-        FSST_KINDS[(n - 3 + (idx / 3) % 3) as usize]
-    } else {
-        FSST_KINDS[((idx - idx / 3 - 1) % (n - 3)) as usize]
+    let n = FSST_KINDS.len() as u64; // 14 classic + 3 token kinds + symtok
+    match idx % 4 {
+        0 => "symtok",
+        1 => FSST_KINDS[(n - 4 + (idx / 4) % 3) as usize],
+        r => FSST_KINDS[((idx / 4) * 2 + (r - 2)) as usize % (n as usize - 4)],
     }
+}
+
+/// what `symtok_corpus` built (for probes / evidence)
+pub struct SymtokInfo {
+    pub rare_token: Vec<u8>,
+    pub rare_pos: usize,
+    pub tokens: Vec<Vec<u8>>,
+    pub n_hi: usize,
+    pub hi_w: f64,
+    pub cut_share: u64,
+    pub cut_hi: bool,
+}
+
+/// corpus in which every token can become a whole FSST symbol (see FSST_KINDS "symtok")
+pub fn symtok_corpus(rng: &mut Rng, target: usize) -> Vec<Vec<u8>> {
+    symtok_corpus_info(rng, target).0
+}
+
+pub fn symtok_corpus_info(rng: &mut Rng, target: usize) -> (Vec<Vec<u8>>, SymtokInfo) {
+    let l = if rng.chance(17, 20) { 8 } else { rng.urange(5, 7) };
+    let k = 32usize;
+    let mut perm: Vec<u8> = (0..=255u8).collect();
+    rng.shuffle(&mut perm);
+    let mut tokens: Vec<Vec<u8>> = (0..k).map(|t| perm[t * l..(t + 1) * l].to_vec()).collect();
+    // bytes not covered by the K tokens (only when l < 8) live in frequent 8-byte filler tokens
+    let fillers: Vec<Vec<u8>> = perm[k * l..].chunks(8).map(|c| c.to_vec()).collect();
+    // two tiers within a factor <= 5: the frequent tier becomes whole symbols in the first rounds, which frees the
+    // table slots of its single bytes; the substrings of the low tier are learned in the later rounds.
+    // R = the least frequent token (low tier); the byte at position p of R is the rarest byte of the corpus.
+    let hi_w = *rng.pick(&[4.0f64, 5.0]);
+    // (measured with the symbol-table probe: with 12-20 frequent tokens 40-80 % of the low-tier tokens get
+    // multi-byte symbols and the terminator always lies in a low-tier token)
+    let n_hi = *rng.pick(&[12usize, 12, 16, 16, 20]);
+    let r_idx = n_hi + rng.usize_below(k - n_hi);
+    let p = if rng.chance(1, 2) { l - 1 } else { rng.usize_below(l) };
+    let r_w = *rng.pick(&[0.8f64, 0.9, 1.0]);
+    let weights: Vec<f64> = (0..k).map(|t| if t == r_idx { r_w } else if t < n_hi { hi_w } else { 1.0 }).collect();
+    let mut cum = vec![];
+    let mut acc = 0.0;
+    for w in &weights {
+        acc += w;
+        cum.push(acc);
+    }
+    for _ in &fillers {
+        acc += hi_w;
+        cum.push(acc);
+    }
+    tokens.extend(fillers.iter().cloned());
+    let pick = |rng: &mut Rng| -> usize {
+        let x = rng.f64() * acc;
+        cum.partition_point(|c| *c < x).min(tokens.len() - 1)
+    };
+    let cut_share = *rng.pick(&[3u64, 6, 9]); // of 10 records whose last token is a low-tier token
+    let cut_hi = rng.chance(1, 3); // also cut frequent-tier last tokens
+    let trail0 = rng.below(3); // never / sometimes / often a trailing 0x00
+    let mut out: Vec<Vec<u8>> = vec![];
+    let mut tot = 0usize;
+    while tot < target {
+        let nt = rng.urange(1, 40);
+        let mut rec: Vec<u8> = Vec::with_capacity(nt * 8);
+        let mut last = 0usize;
+        for _ in 0..nt {
+            last = pick(rng);
+            rec.extend_from_slice(&tokens[last]);
+        }
+        let low = last >= n_hi && last < k;
+        if tokens[last].len() > 1 && (low || cut_hi) && rng.below(10) < cut_share {
+            // end with a proper prefix of the last token: every cut position 1..len-1; a record whose last token is
+            // R ends right before the rare byte half of the time
+            let ll = tokens[last].len();
+            let cut = if last == r_idx && p > 0 && rng.bool() { ll - p } else { rng.urange(1, ll - 1) };
+            rec.truncate(rec.len() - cut);
+        }
+        if trail0 > 0 && rng.chance(trail0, 4) {
+            rec.push(0x00);
+        }
+        tot += rec.len();
+        out.push(rec);
+    }
+    let rt = tokens[r_idx].clone();
+    // records that end with every proper prefix of R (several of each, most right before the rare byte)
+    let extra = rng.urange(8, 40);
+    for j in 0..extra {
+        let keep = if j % 2 == 0 && p > 0 { p } else { rng.urange(1, l - 1) };
+        let mut rec = vec![];
+        for _ in 0..rng.urange(0, 6) {
+            rec.extend_from_slice(&tokens[pick(rng)]);
+        }
+        rec.extend_from_slice(&rt[..keep]);
+        if j % 5 == 4 {
+            rec.push(0x00);
+        }
+        out.push(rec);
+    }
+    // the bytes of R after position p would tie with it: let them occur alone a few times as well
+    for b in rt.iter().skip(p + 1) {
+        for _ in 0..extra / 2 + 2 {
+            out.push(vec![*b]);
+        }
+    }
+    rng.shuffle(&mut out);
+    (out, SymtokInfo { rare_token: rt, rare_pos: p, tokens: tokens[..k].to_vec(), n_hi, hi_w, cut_share, cut_hi })
 }
 
 pub struct TokenVocab {
@@ -384,6 +490,11 @@ pub fn gen_fsst(rng: &mut Rng, kind: &'static str, scale: u32) -> FsstCase {
                 let b = r.urange(a, base.len());
                 base[a..b].to_vec()
             })
+        }
+        "symtok" => {
+            let total = *rng.pick(&[FSST_LEAST_INPUT_SIZE + 64, 40_000, 70_000, 140_000, 200_000]);
+            let total = if scale <= 10 { FSST_LEAST_INPUT_SIZE + 64 } else { total };
+            symtok_corpus(rng, total)
         }
         "tokens" | "tokens511" | "tokens_edge" => {
             let v = TokenVocab::new(rng);
